@@ -234,11 +234,41 @@ def _stream_data(text, via):
     return data
 
 
-def judge(d, toks, classes=None, via=None):
+def lay_out(toks, d, seed):
+    """The tokens with generated white space and comments between them (C04's layouts)
+    instead of single blanks; None when a token runs to the end of the text (then what
+    stands between the tokens would become part of it)."""
+    import random as _random
+    if any(t[1] == "broken" for t in toks):
+        return None
+    if isinstance(seed, (list, tuple)):
+        # ("cycle", k): fixed separators in turn, so that every token is once followed
+        # by each of them
+        from vlib.dialects import HASH_COMMENT
+        cyc = [" ", " # --\n", "\n", " /* c */ ", " # end of the note -----\n", "\r\n  "]
+        if d not in HASH_COMMENT:
+            cyc = [c if "#" not in c else " /* -- */\n" for c in cyc]
+        k = seed[1]
+        return "".join(t[0] + cyc[(i + k) % len(cyc)] for i, t in enumerate(toks))
+    rng = _random.Random(seed)
+    out = []
+    for i, t in enumerate(toks):
+        if i:
+            out.append(gt._sep(rng, d, True, "full"))
+        out.append(t[0])
+    out.append(rng.choice(["", "\n", " ", "\r\n"]))
+    return "".join(out)
+
+
+def judge(d, toks, classes=None, via=None, layout=None):
     """Returns (verdict, signature|None, detail) for one faulted token list.
     *classes*: a key of CLASS_CFGS - only 'ill-formed must be rejected' is judged then
     (the tree comparison tells groups from objects by their class)."""
     text = render(toks)
+    if layout is not None:
+        text = lay_out(toks, d, layout)
+        if text is None:
+            return ("ambiguous", None, "no layout for a token that runs to the end")
     rec = refread.recognise(toks, d)
     if rec[0] == "ambiguous":
         return ("ambiguous", None, rec[1])
@@ -275,7 +305,9 @@ def judge(d, toks, classes=None, via=None):
     # well-formed
     if outcome == "raised":
         return ("wellformed-rejected", None, "")
-    if classes is not None:
+    if classes is not None or isinstance(layout, (list, tuple)):
+        # (the hand-written documents of commented_faults carry no expected values: only
+        # 'ill-formed must be rejected' is judged there)
         return ("wellformed-ok", None, "")
     got = nm.canon(m)
     dd = nm.diff(rec[1], got)
@@ -327,6 +359,17 @@ def random_cases(acc, d, n, seed):
                          "reason": detail[:80]} if nt else None)
         if v == "fail":
             acc.fail(sig, dict(dialect=d, tokens=[list(t) for t in toks]), detail)
+        # the same faulted tokens with generated white space and comments between them
+        import zlib
+        lseed = zlib.crc32(text.encode("utf-8", "surrogatepass"))
+        if lseed % 2:
+            return
+        v2, sig2, detail2 = judge(d, toks, layout=lseed)
+        acc.event(f"layout:{v2}")
+        if v2 == "fail":
+            acc.fail(sig2.replace("C05/", "C05/laid-out/", 1),
+                     dict(dialect=d, tokens=[list(t) for t in toks], layout=lseed),
+                     detail2)
 
     body()
 
@@ -450,6 +493,45 @@ def stream_faults(acc, d):
                                        via=via), detail)
 
 
+def commented_faults(acc, d):
+    """Single faults on documents with multi-line strings, every token followed in turn
+    by a blank, a line end, a comment, a '#' comment that ends in dashes."""
+    T = gt.T
+    EQ = T("=", "eq")
+    docs = [
+        [T("note"), EQ, T('"first line\n second line"', "quoted", ("str", "x")),
+         T("b"), EQ, T("(", "open"), T("1", "word", ("int", 1)), T(",", "comma"),
+         T("2", "word", ("int", 2)), T(")", "close"), T("c"), EQ,
+         T("3", "word", ("int", 3)), T("END", "end")],
+        [T("GROUP"), EQ, T("g"), T("s"), EQ, T("'a\nb'", "quoted", ("str", "x")),
+         T("u"), EQ, T("5", "word", ("int", 5)), T("<m>", "units", "m"),
+         T("END_GROUP"), T("t"), EQ, T('"one\n two\n three"', "quoted", ("str", "x"))],
+    ]
+    for base in docs:
+        n = len(base)
+        faults = []
+        for i in range(n):
+            faults += [("delete", i), ("dup", i), ("swap", i), ("badunits", i),
+                       ("badword", i), ("wrong-end", i)]
+            faults += [("replace", i, k) for k in range(len(PUNCT))]
+        for f in faults:
+            toks = apply_faults(base, [f])
+            for k in range(6):
+                if acc.expired():
+                    acc.notes["budget_exhausted"] = 1
+                    return
+                v, sig, detail = judge(d, toks, layout=("cycle", k))
+                acc.event(f"commented:{v}")
+                if v == "ambiguous":
+                    continue
+                acc.case(key=d + "\0cycle" + str(k) + render(toks),
+                         nontrivial=v in ("ill-rejected", "fail"))
+                if v == "fail":
+                    acc.fail(sig.replace("C05/", "C05/laid-out/", 1),
+                             dict(dialect=d, tokens=[list(t) for t in toks],
+                                  layout=["cycle", k]), detail)
+
+
 def _small_documents():
     T = gt.T
     EQ, SC = T("=", "eq"), T(";", "semi")
@@ -509,6 +591,7 @@ def shards(tier, seed):
            for j in range(18)]
     out += [("single_faults", dict(d=d)) for d in PARSERS]
     out += [("stream_faults", dict(d=d)) for d in ("PVL", "ISIS", "ISISv", "default")]
+    out += [("commented_faults", dict(d=d)) for d in PARSERS]
     for d in ("default", "ISISv", "PVL") if tier == "quick" else PARSERS:
         out += [("double_faults", dict(d=d, doc=k))
                 for k in range(len(_small_documents()))]
@@ -544,14 +627,17 @@ def _tok(t):
 
 def replay(case):
     toks = [_tok(t) for t in case["tokens"]]
-    v, sig, detail = judge(case["dialect"], toks, case.get("classes"), case.get("via"))
+    v, sig, detail = judge(case["dialect"], toks, case.get("classes"), case.get("via"),
+                           case.get("layout"))
     if v == "fail":
+        if case.get("layout") is not None:
+            sig = sig.replace("C05/", "C05/laid-out/", 1)
         return (sig, detail)
     return None
 
 
 def shrink(case, still_fails):
-    extra = {k: case[k] for k in ("classes", "via") if case.get(k)}
+    extra = {k: case[k] for k in ("classes", "via", "layout") if case.get(k) is not None}
     toks = shrink_seq(case["tokens"], lambda ts: still_fails(
         dict(dialect=case["dialect"], tokens=ts, **extra)))
     return dict(dialect=case["dialect"], tokens=toks, **extra)
